@@ -170,7 +170,7 @@ func checkC02(e *Env) {
 		}
 	})
 	// the concurrent flavour of this monitor (C12 is the full treatment)
-	concCalls := e.concurrentSmoke(drv, "C02", e.smokePool("C02", "chk"), e.pick(2, 12), e.pick(300, 1500))
+	concCalls := e.concurrentSmoke(drv, "C02", e.smokePool("C02", "chk"), e.pick(2, 12), e.pick(300, 1500), e.smokeValidAccepted())
 
 	possible := 0
 	for range ref.Names {
